@@ -525,7 +525,9 @@ class MAAction(Case):
         patches = [(agent, "actors", actors), (agent, "action_noise", noise)]
         if v.mode != "real":
             import agilerl.algorithms.core.base as base_mod
-            patches += [(mod, "np", np_shim(v)), (au, "torch", ShimTorch()), (base_mod, "np", ShimNumpy({"isnan": sym_isnan}))]
+            patches += [(mod, "np", np_shim(v)), (au, "torch", ShimTorch())]
+            if self.env_defined:
+                patches.append((base_mod, "np", ShimNumpy({"isnan": sym_isnan})))
         with patched(*patches):
             cont, disc = agent.get_action(obs, training=self.training, infos=infos)
         res = []
@@ -760,7 +762,7 @@ def cases(tier):
            DistCase("discrete3", masked=True), DistCase("multidiscrete23", masked=True), DistCase("multibinary3"), IPPOMaskRouting(2, 2), IPPOMaskRouting(2, 2, arrays=True)]
     if tier == "thorough":
         cs += [DQNAction(1, 4, True, False), DQNAction(1, 4, True, True), DQNAction(3, 2, True, True), MaskedArgmaxAction("CQN", 2, 4, True), MaskedArgmaxAction("RainbowDQN", 2, 4, True),
-               ClipAction("DDPG", 2, False), MAAction("MADDPG", True, False, masked=True, B=2), MAAction("MATD3", False, False, B=2),
+               ClipAction("DDPG", 2, False), MAAction("MADDPG", True, False, masked=True, B=2, nA=2), MAAction("MATD3", False, False, B=2),
                MAAction("MADDPG", True, False, env_defined=True, B=2, nA=2), MAAction("MATD3", False, True, env_defined=True, B=2), IPPOEnvDefined(True, A=2, E=3), IPPOEnvDefined(False, A=2, E=2),
                IPPOAction(True, False, A=2, E=2), IPPOAction(False, False, A=1, E=3)]
     return cs
